@@ -13,7 +13,7 @@ NSLICES = 8
 LIMS = [((-5, 5), (-5, 5)), ((-2, 2), (-2, 2)), ((0, 3), (-1, 1)), ((-1, 1), (0, 3)), ((-3, -1), (0, 3)), ((-3, 0), (-2, -1))]
 RULE = (
     "E1 exhaustive: constraint lists L<=2 over T({u,v},{-2..2},{-1,0,1,2}) (complete in quick for <=1 term, 1/%d slice of the "
-    "2-term lists; thorough complete) and 3-4 variable lists with every integer assignment in [-2,2] to the non-plotted "
+    "2-term lists; thorough complete, plus all 142880 three-term lists) and 3-4 variable lists with every integer assignment in [-2,2] to the non-plotted "
     "variables; x 6 axis-limit pairs (two windows entirely at non-positive coordinates) x both roles of the plotted pair (exercises the column swap); plus unassigned variable, "
     "value given for a plotted variable, empty slices, slices degenerating to a segment or a point. Oracle: exact rational "
     "vertex enumeration of the 2-D slice (pairwise line intersections satisfying all constraints): every returned point "
@@ -66,7 +66,16 @@ def _all():
         yield {"fam": "two2", "L": L, "lims": LIMS[3], "xy": ("v", "u"), "vals": {}}
 
 
+def _deep():
+    T = grids.terms(["u", "v"], [-2, -1, 0, 1, 2], [-1, 0, 1, 2])
+    for k, L in enumerate(grids.lists_upto(T, 3, minlen=3)):
+        yield {"fam": "two3", "L": L, "lims": LIMS[k % len(LIMS)], "xy": ("u", "v") if k % 2 else ("v", "u"), "vals": {}}
+
+
 def cases(tier, seed):
+    if tier == "thorough":
+        for c in _deep():
+            yield c
     sl = seed % NSLICES
     k = 0
     for c in grids.dedupe(_all()):
